@@ -1,6 +1,7 @@
 (** Model/Eval.v — index-for-index mirror of pint/pint_eval.py [_build_eval_tree] and
     [EvalTreeNode.evaluate].  Definitions only. *)
 From PintV Require Import Model.UC.
+From PintV Require Gen.EvalTables.
 Open Scope string_scope.
 
 (** Tokens as the tree builder sees them: type and text.  [TOther] stands for every token
@@ -37,14 +38,27 @@ Fixpoint assoc {A} (k : string) (l : list (string * A)) : option A :=
 Definition prio (tbl : list (string * Z)) (op : string) : option Z := assoc op tbl.
 Definition prio_d (tbl : list (string * Z)) (op : string) : Z := default (-1)%Z (prio tbl op).
 
+(** Two fragments of [_build_eval_tree] exist in two shapes (as first found / after the fix:
+    commits for F16 and F41).  The translator T2 reads which shape the working tree has and emits
+    two booleans (Gen/EvalTables.v); the builder takes them as parameters, so that the model
+    mirrors whichever code is in /repo and both behaviours can be stated.
+    [paren_any = true]: a parenthesised group after a value is attached by juxtaposition
+      whatever the pending operator (F16); false: under the same priority test as a NUMBER/NAME,
+      by a call with [prev = ""] that starts at the "(" token.
+    [pow_exempt = true]: "**" / "^" never end a pending operator (F41: [1.2 +/- 0.4 ** 2] reads
+      [1.2 +/- (0.4 ** 2)]); false: they are exempt only among operators of equal priority. *)
+Definition op_ends (pow_exempt : bool) (p pp : Z) (o : string) : bool :=
+  if pow_exempt then Z.leb p pp && negb (String.eqb o "**" || String.eqb o "^")
+  else Z.ltb p pp || (Z.eqb p pp && negb (String.eqb o "**" || String.eqb o "^")).
+
 Section Build.
-  Context (tbl : list (string * Z)) (toks : list tok).
+  Context (paren_any pow_exempt : bool) (tbl : list (string * Z)) (toks : list tok).
   Definition ntoks := length toks.
   Definition tok_at (i : nat) : option tok := nth_error toks i.
 
-  (** One call of [_build_eval_tree] is the loop [go]; [fuel] bounds loop iterations plus
+  (** One call of [_build_eval_tree] is the loop [go_p]; [fuel] bounds loop iterations plus
       nested calls. *)
-  Fixpoint go (fuel : nat) (index depth : nat) (prev : string) (result : option tree)
+  Fixpoint go_p (fuel : nat) (index depth : nat) (prev : string) (result : option tree)
     : res (tree * nat) :=
     match fuel with
     | O => Err EFuel
@@ -61,7 +75,7 @@ Section Build.
               else match result' with None => Err EAssert | Some r => Ok (r, index') end
           | Some _ =>
               if Nat.leb ntoks (index' + 1) then Err EUnexpectedEnd
-              else go f (index' + 1) depth prev result'
+              else go_p f (index' + 1) depth prev result'
           end in
         match cur with
         | TOp ")" =>
@@ -71,33 +85,54 @@ Section Build.
                  | Some r => if String.eqb prev "(" then Ok (r, index) else Ok (r, pred index)
                  end
         | TOp "(" =>
-            match go f (index + 1) 0 "(" None with
-            | Err e => Err e
-            | Ok (rt, index') =>
-                match tok_at index' with
-                | None => Err EIndex
-                | Some t =>
-                    if negb (bool_decide (t = TOp ")")) then Err EWeird
-                    else match result with
-                         | Some r => tail (Some (Bin "" r rt)) index'
-                         | None => tail (Some rt) index'
-                         end
-                end
-            end
+            if paren_any then
+              match go_p f (index + 1) 0 "(" None with
+              | Err e => Err e
+              | Ok (rt, index') =>
+                  match tok_at index' with
+                  | None => Err EIndex
+                  | Some t =>
+                      if negb (bool_decide (t = TOp ")")) then Err EWeird
+                      else match result with
+                           | Some r => tail (Some (Bin "" r rt)) index'
+                           | None => tail (Some rt) index'
+                           end
+                  end
+              end
+            else
+              match result with
+              | Some r =>
+                  if Z.leb (prio_d tbl "") (prio_d tbl prev) then Ok (r, pred index)
+                  else match go_p f index (depth + 1) "" None with
+                       | Err e => Err e
+                       | Ok (rt, index') => tail (Some (Bin "" r rt)) index'
+                       end
+              | None =>
+                  match go_p f (index + 1) 0 "(" None with
+                  | Err e => Err e
+                  | Ok (rt, index') =>
+                      match tok_at index' with
+                      | None => Err EIndex
+                      | Some t =>
+                          if negb (bool_decide (t = TOp ")")) then Err EWeird
+                          else tail (Some rt) index'
+                      end
+                  end
+              end
         | TOp o =>
             match prio tbl o with
             | None => tail result index
             | Some p =>
                 match result with
                 | Some r =>
-                    if Z.leb p (prio_d tbl prev) && negb (String.eqb o "**" || String.eqb o "^")
+                    if op_ends pow_exempt p (prio_d tbl prev) o
                     then Ok (r, pred index)
-                    else match go f (index + 1) (depth + 1) o None with
+                    else match go_p f (index + 1) (depth + 1) o None with
                          | Err e => Err e
                          | Ok (rt, index') => tail (Some (Bin o r rt)) index'
                          end
                 | None =>
-                    match go f (index + 1) (depth + 1) "unary" None with
+                    match go_p f (index + 1) (depth + 1) "unary" None with
                     | Err e => Err e
                     | Ok (rt, index') => tail (Some (Un o rt)) index'
                     end
@@ -107,7 +142,7 @@ Section Build.
             match result with
             | Some r =>
                 if Z.leb (prio_d tbl "") (prio_d tbl prev) then Ok (r, pred index)
-                else match go f index (depth + 1) "" None with
+                else match go_p f index (depth + 1) "" None with
                      | Err e => Err e
                      | Ok (rt, index') => tail (Some (Bin "" r rt)) index'
                      end
@@ -122,11 +157,15 @@ End Build.
 (** [build_eval_tree]: fuel is generous (every iteration or call consumes a token position
     or returns; [4·n + 8] suffices, see Proofs). *)
 Definition build_fuel (toks : list tok) : nat := 4 * length toks + 8.
-Definition build (tbl : list (string * Z)) (toks : list tok) : res tree :=
-  match go tbl toks (build_fuel toks) 0 0 "<none>" None with
+Definition build_p (paren_any pow_exempt : bool) (tbl : list (string * Z)) (toks : list tok) : res tree :=
+  match go_p paren_any pow_exempt tbl toks (build_fuel toks) 0 0 "<none>" None with
   | Ok (t, _) => Ok t
   | Err e => Err e
   end.
+
+(** the builder as the code in /repo has it now: the two switches come from the translator *)
+Definition go := go_p EvalTables.paren_juxt_any_priority EvalTables.pow_exempt_any_priority.
+Definition build := build_p EvalTables.paren_juxt_any_priority EvalTables.pow_exempt_any_priority.
 
 (** [EvalTreeNode.to_string] *)
 Definition tok_text (t : tok) : string :=
